@@ -250,7 +250,24 @@ theorem solve_once (prog : List Term) (n d nv l : Nat) (g : Term) (rest : List S
     exact solve_ifthen prog n d nv l (SLD.call1 g) (.atom "true") rest q limit
   · intro v hv; cases hv
 
+/-- `\\+ G` is `(call(G) -> fail ; true)` -/
+theorem solve_neg (prog : List Term) (n d nv l : Nat) (g : Term) (rest : List SLD.Frame) (q : Term) (limit : Nat) :
+    SLD.solve false prog (n + 1 + 1) d nv (.goal (.app "\\+" (.cons g .nil)) l :: rest) q limit =
+      SLD.solveAlts false prog n d nv (negAlts g d l) rest q limit := by
+  rw [SLD.solve]
+  · simp only [SLD.functor, Args.toList, SLD.builtin, List.map_cons, List.map_nil, List.singleton_append]
+    exact solve_ite prog n d nv l (SLD.call1 g) (.atom "fail") (.atom "true") rest q limit
+  · intro v hv; cases hv
+
 /-! ### the VM on the control constructs: not built in -/
+
+theorem builtin_neg (n : Nat) (g : Term) (k : Cont) (env : Env) (m : MS) :
+    builtin (n + 1) "\\+" [g] k env m =
+      some (some ({ id := m.user.nextId, delayed := [.negate g k env] },
+        { m with user := { m.user with nextId := m.user.nextId + 1 } })) := by
+  rw [builtin]
+  rfl
+
 
 theorem builtin_once (n : Nat) (a : Term) (k : Cont) (env : Env) (m : MS) :
     builtin (n + 1) "once" [a] k env m = none := by
